@@ -46,10 +46,12 @@ def concretise(c, rnd):
         dirs = {(p[2], p[3]) for p in c["pairs"]}
         opposite = all((s, e) in (("l", "r"), ("r", "l"), ("t", "b"), ("b", "t")) for s, e in dirs)
         r = rnd.random()
-        if r < 0.3:
+        if r < 0.25:
             extra += ' corner-offset="2"'
-        elif r < 0.5 and opposite:
+        elif r < 0.45 and opposite:
             extra += ' corner-offset="25%"'
+        elif r < 0.65 and opposite:
+            extra += ' corner-offset="-1"'
     conn = f'<{name} id="s" start="{st}" end="{en}"{extra}/>'
     if rnd.random() < 0.3:
         return f"<svg>{conn}{a}{b}</svg>"
@@ -132,6 +134,18 @@ def run(rep, tier, seed):
                     ok_any = ok_any or (s_ok and e_ok)
                 if not ok_any:
                     return (f"conn:{form}:perpendicular", f"polyline {pts} does not leave/enter perpendicular to the chosen edges {[(m[2], m[3]) for m in match]}")
+                # leaving means away from the start element, entering means towards the end
+                # element from outside (judged only when the two boxes are apart)
+                a_, b_ = cs["a"], cs["b"]
+                apart = a_["x2"] < b_["x1"] or b_["x2"] < a_["x1"] or a_["y2"] < b_["y1"] or b_["y2"] < a_["y1"]
+                zshape = all((m[2], m[3]) in (("l", "r"), ("r", "l"), ("t", "b"), ("b", "t")) for m in match)
+                # (with author-named edges there may be no outward way in: judged for automatically chosen edges)
+                if apart and cs["form"] == "auto":
+                    def outward(loc, p_edge, p_other):
+                        dx, dy = p_other[0] - p_edge[0], p_other[1] - p_edge[1]
+                        return {"r": dx >= -0.0015, "l": dx <= 0.0015, "b": dy >= -0.0015, "t": dy <= 0.0015}.get(loc, True)
+                    if not any(outward(m[2], pts[0], pts[1]) and outward(m[3], pts[-1], pts[-2]) for m in match):
+                        return (f"conn:{form}:direction", f"polyline {pts} leaves / enters through the inside of an element (edges {[(m[2], m[3]) for m in match]})")
         return None
     geom.run_and_compare(rep, cases, check, "c13")
     forms = {}
